@@ -113,8 +113,11 @@ def execute(prog, base):
             ev.append(["obs", k, _alive(tracker), [os.path.basename(f) for f in files if not os.path.exists(f)]])
             open(os.path.join(d, f"die_{path}"), "w").close()
             pid = alive.pop(path)
+            # (a member that ends through the interpreter's normal exit first joins its own live children: do not wait for it)
+            has_live_kids = any(q != path and q.startswith(path) for q in alive)
+            clean = dict(members)[path].get("death", "return") in ("return", "exception")
             t1 = time.time()
-            while _alive(pid) and time.time() - t1 < 30:
+            while _alive(pid) and time.time() - t1 < (0.3 if (has_live_kids and clean) else 30):
                 time.sleep(0.005)
             ev.append(["died", path, not _alive(pid)])
         for path in list(alive):
@@ -260,7 +263,7 @@ def real_shard(seed, n, tier="quick"):
 
 def run(tier, seed):
     from vlib.shards import run_jobs
-    nr = 48 if tier == "quick" else 800
+    nr = 96 if tier == "quick" else 1200
     jobs = [{"module": "props.c12", "func": "real_shard", "kwargs": {"seed": common.derive_seed(seed, ID, "r", i), "n": nr // 16, "tier": tier}}
             for i in range(16)]
     acc, not_run = run_jobs(jobs, tag="c12", timeout_s=1500 if tier == "quick" else 7200)
